@@ -29,7 +29,7 @@ use std::time::{Duration, Instant};
 pub static META: PropMeta = PropMeta {
     id: "C10",
     level: "exploration",
-    rule: "cases: (a) sched: 1..4 scripted futures scheduled on an Executor inserted in a loop thread that dispatches with zero timeout (optionally scheduling one more future from the callback, optionally removing and dropping the executor after dispatch k), or a scripted stream in a StreamSource; 1..3 actor threads with programs over wake(task) / clone+wake(task) / complete+wake(task) (stream: push+wake / end+wake); the schedule over all executor, ping and harness yield sites (incl. one in the middle of every poll) is generated. oracle on the controller's logical clock: every scheduled future is polled; a poll of the task starts after every wake that began while it was pending and the executor was alive; all polls and future drops happen on the loop thread; each Ready(v) gives exactly one callback with v and no callback exists without a completion; after the executor is dropped every future has been dropped exactly once (checked before the Scheduler goes) and schedule() returns ExecutorDestroyed; stream: items delivered == items pushed in order, one None after end, then the slot is free. (e) stream bursts: 0/1/2/1023/1024/1025/2048/2049/3000 and random numbers of items ready at once in a StreamSource (finite ready stream; burst into a futures channel whose sender is then dropped or kept quiet): all delivered in order with no further wake-up, one None when the stream ended, then the slot is free. (d) hist: single-thread histories through the history machine with Executor sources (schedule scripted futures that stay pending 0..3 times, optionally waking themselves; wake from outside; schedule and wake from callbacks; disable/enable/remove/slot reuse of the executor, also from other callbacks): a runnable task is polled by the next Ok dispatch of an enabled executor, never while disabled or after removal, a completed task's value is delivered exactly once in the same dispatch, every future is dropped exactly once with its executor, schedule() afterwards returns ExecutorDestroyed. (c) free: 1..4 scripted futures, 2..3 free-running waker threads released together by a spin barrier (real concurrency, for races whose window holds no yield site) with programs over wake / clone+wake / complete+wake against the dispatching loop; oracle on CLOCK_MONOTONIC instants and end state: a completed+woken task delivers its value exactly once, every wake of a pending task is followed by a poll that started after it began, polls and drops only on the loop thread, every future dropped exactly once with the executor, ExecutorDestroyed afterwards. (b) batch: n ready tasks, n in {0,1,1023,1024,1025,2100} and random, complete over consecutive dispatches without external wake-up; futures scheduled from the callback and from futures run. non-trivial (sched): an actor's wake sites interleave with the executor's flag-clear / dequeue sites of a dispatch (actor step between EX_CLEAR_PRE and the end of that dispatch), or a wake lands in the middle of a poll, or the executor is dropped while a wake is in flight; (batch): n >= 1024; distinct by case fingerprint",
+    rule: "cases: (a) sched: 1..4 scripted futures scheduled on an Executor inserted in a loop thread that dispatches with zero timeout (optionally scheduling one more future from the callback, optionally removing and dropping the executor after dispatch k), or a scripted stream in a StreamSource; 1..3 actor threads with programs over wake(task) / clone+wake(task) / complete+wake(task) (stream: push+wake / end+wake); the schedule over all executor, ping and harness yield sites (incl. one in the middle of every poll) is generated. oracle on the controller's logical clock: every scheduled future is polled; a poll of the task starts after every wake that began while it was pending and the executor was alive; all polls and future drops happen on the loop thread; each Ready(v) gives exactly one callback with v and no callback exists without a completion; after the executor is dropped every future has been dropped exactly once (checked before the Scheduler goes) and schedule() returns ExecutorDestroyed; stream: items delivered == items pushed in order, one None after end, then the slot is free. (e) stream bursts: 0/1/2/1023/1024/1025/2048/2049/3000 and random numbers of items ready at once in a StreamSource (finite ready stream; burst into a futures channel whose sender is then dropped or kept quiet): all delivered in order with no further wake-up, one None when the stream ended, then the slot is free. (d) hist: single-thread histories through the history machine with Executor sources (schedule scripted futures that stay pending 0..3 times, optionally waking themselves; wake from outside; schedule and wake from callbacks; disable/enable/remove/slot reuse of the executor, also from other callbacks): a runnable task is polled by the next Ok dispatch of an enabled executor, never while disabled or after removal, a completed task's value is delivered exactly once in the same dispatch, every future is dropped exactly once with its executor, schedule() afterwards returns ExecutorDestroyed. (c) free: 1..4 scripted futures, 2..3 free-running waker threads released together by a spin barrier (real concurrency, for races whose window holds no yield site) with programs over wake / clone+wake / complete+wake against the dispatching loop; oracle on CLOCK_MONOTONIC instants and end state: a completed+woken task delivers its value exactly once, every wake of a pending task is followed by a poll that started after it began, polls and drops only on the loop thread, every future dropped exactly once with the executor, ExecutorDestroyed afterwards. (b) batch: n ready tasks, n in {0,1,1023,1024,1025,2100} and random, complete over consecutive dispatches without external wake-up; futures scheduled from the callback and from futures run; optionally 1..2600 futures scheduled ahead of them that park their waker and stay pending at their first poll (a whole batch in which nothing finishes): all of them are polled and everything queued behind them is delivered without external wake-up, then they are woken from outside and finish. non-trivial (sched): an actor's wake sites interleave with the executor's flag-clear / dequeue sites of a dispatch (actor step between EX_CLEAR_PRE and the end of that dispatch), or a wake lands in the middle of a poll, or the executor is dropped while a wake is in flight; (batch): n >= 1024; distinct by case fingerprint",
     assumptions: &[
         "interleavings at yield-site granularity on x86-TSO with the real atomics, real mpsc queue and real eventfd",
         "async-task's internal state machine is exercised through calloop only; its own atomics have no yield sites",
@@ -616,6 +616,26 @@ pub struct BatchCase {
     /// batch - everything queued behind them is polled and delivered too
     #[serde(default)]
     pub slow: u8,
+    /// this many futures are scheduled before everything else whose first poll parks the waker and returns Pending
+    /// (they finish at their second poll, after the harness has woken them): a batch in which nothing finishes is a
+    /// batch like any other - whatever is queued behind it is still polled without any external wake-up
+    #[serde(default)]
+    pub pending_first: u32,
+}
+
+struct Parked(bool, std::sync::Arc<std::sync::Mutex<Vec<std::task::Waker>>>, u32);
+impl Future for Parked {
+    type Output = u32;
+    fn poll(mut self: Pin<&mut Self>, cx: &mut Context<'_>) -> Poll<u32> {
+        BATCH_POLLS.with(|p| p.set(p.get() + 1));
+        if self.0 {
+            self.0 = false;
+            self.1.lock().unwrap().push(cx.waker().clone());
+            Poll::Pending
+        } else {
+            Poll::Ready(self.2)
+        }
+    }
 }
 
 struct Slow(u32);
@@ -680,6 +700,15 @@ fn run_batch(c: &BatchCase) -> CaseOutcome {
         })
         .expect("insert");
     let mut want: Vec<u32> = vec![];
+    let parked = std::sync::Arc::new(std::sync::Mutex::new(Vec::new()));
+    let mut want_late: Vec<u32> = vec![];
+    if c.pending_first > 0 {
+        info.classes.push(if c.pending_first >= 1024 { "whole_batch_of_futures_that_stay_pending" } else { "futures_that_stay_pending_in_the_batch" });
+    }
+    for k in 0..c.pending_first {
+        sch.schedule(Parked(true, parked.clone(), 5_000_000 + k)).expect("schedule");
+        want_late.push(5_000_000 + k);
+    }
     if c.slow > 0 {
         info.classes.push("slow_polls_in_the_batch");
     }
@@ -705,12 +734,47 @@ fn run_batch(c: &BatchCase) -> CaseOutcome {
         want.push(3_000_000);
     }
     let mut got: Vec<u32> = vec![];
-    let rounds = (want.len() as u32 + c.yields) / 1024 + 3;
+    let rounds = (want.len() as u32 + c.yields + c.pending_first) / 1024 + 3;
     let mut most_polls = 0u32;
     for _ in 0..rounds {
         BATCH_POLLS.with(|p| p.set(0));
         el.dispatch(Some(Duration::ZERO), &mut got).expect("dispatch");
         most_polls = most_polls.max(BATCH_POLLS.with(|p| p.get()));
+    }
+    if c.pending_first > 0 {
+        let polled = parked.lock().unwrap().len() as u32;
+        let mut a = got.clone();
+        a.sort_unstable();
+        let mut w = want.clone();
+        w.sort_unstable();
+        if polled != c.pending_first || a != w {
+            let missing = w.iter().filter(|v| a.binary_search(v).is_err()).count();
+            return (
+                info,
+                Some(Violation::new(
+                    "C10.batch",
+                    format!(
+                        "{} futures that stay pending at their first poll scheduled ahead of {} ready ones: after {} dispatches without external wake-up {} of the former were polled and {} outputs of the latter are missing",
+                        c.pending_first,
+                        want.len(),
+                        rounds,
+                        polled,
+                        missing
+                    ),
+                )),
+            );
+        }
+        // now wake them (from outside a dispatch): each completes at its second poll
+        let ws: Vec<std::task::Waker> = parked.lock().unwrap().drain(..).collect();
+        for w in ws {
+            w.wake();
+        }
+        want.extend(want_late.iter().copied());
+        for _ in 0..(c.pending_first / 1024 + 3) {
+            BATCH_POLLS.with(|p| p.set(0));
+            el.dispatch(Some(Duration::ZERO), &mut got).expect("dispatch");
+            most_polls = most_polls.max(BATCH_POLLS.with(|p| p.get()));
+        }
     }
     if most_polls > 1024 {
         return (
@@ -1127,7 +1191,17 @@ pub fn check(ctx: &CheckCtx) -> Option<Found> {
     }
     for n in [0u32, 1, 2, 1023, 1024, 1025, 2047, 2048, 2100, 3100] {
         for (nested_every, from_cb) in [(0u32, false), (1, false), (7, true)] {
-            let c = BatchCase { n, nested_every, from_cb, yields: if nested_every == 1 { 0 } else if from_cb { 2500 } else { 1100 }, slow: if n <= 2 { 4 } else { 0 } };
+            let c = BatchCase { n, nested_every, from_cb, yields: if nested_every == 1 { 0 } else if from_cb { 2500 } else { 1100 }, slow: if n <= 2 { 4 } else { 0 }, pending_first: 0 };
+            let (info, v) = run_batch(&c);
+            ctx.col.record(&info, || serde_json::to_value(&c).unwrap());
+            if let Some(v) = v {
+                return Some(Found { sub: "batch".into(), violation: v, case: serde_json::to_value(&c).unwrap(), replay_path: None });
+            }
+        }
+    }
+    for pending_first in [1u32, 1023, 1024, 1025, 1100, 2048, 2100] {
+        for (n, nested_every, from_cb) in [(0u32, 0u32, false), (76, 0, false), (1025, 7, true)] {
+            let c = BatchCase { n, nested_every, from_cb, yields: 0, slow: 0, pending_first };
             let (info, v) = run_batch(&c);
             ctx.col.record(&info, || serde_json::to_value(&c).unwrap());
             if let Some(v) = v {
@@ -1152,7 +1226,7 @@ pub fn check(ctx: &CheckCtx) -> Option<Found> {
     if let Some(f) = ctx.search("stream_burst", sb, t.pick(150, 3000), 8, None, run_stream_burst) {
         return Some(f);
     }
-    let bs = (0u32..3300, prop_oneof![Just(0u32), 1u32..50], any::<bool>(), prop_oneof![2 => Just(0u32), 1 => 1u32..3000], prop_oneof![5 => Just(0u8), 1 => 1u8..=6]).prop_map(|(n, nested_every, from_cb, yields, slow)| BatchCase { n, nested_every, from_cb, yields, slow });
+    let bs = (0u32..3300, prop_oneof![Just(0u32), 1u32..50], any::<bool>(), prop_oneof![2 => Just(0u32), 1 => 1u32..3000], prop_oneof![5 => Just(0u8), 1 => 1u8..=6], prop_oneof![2 => Just(0u32), 1 => 1u32..2600]).prop_map(|(n, nested_every, from_cb, yields, slow, pending_first)| BatchCase { n, nested_every, from_cb, yields, slow, pending_first });
     if let Some(f) = ctx.search("batch", bs, t.pick(200, 5000), 8, None, run_batch) {
         return Some(f);
     }
